@@ -14,5 +14,8 @@ open Irismod Irismod.Service Irismod.Props.C13S
 #print axioms new_batch_handler_local
 #print axioms new_batch_entries_processed
 #print axioms new_batch_removes_exactly_its_entry
+#print axioms no_stale_entries
+#print axioms contexts_well_timed
+#print axioms end_block_leaves_only_future_entries
 -- non-vacuity: the C08 witness state (a context waiting in the new-batch queue) goes through a block: a request is issued, the entry moves to the expired-batch queue
 #eval s!"nonvacuous {let s := endBlock Irismod.Props.C08.w5; s.newQ.isEmpty && s.expQ == [(22, "c")] && s.active.length == 1}"
